@@ -108,7 +108,8 @@ def run_property(modname, replay_path=None):
             if got < need:
                 rep.inconclusive_because(f"monitor counter {name}={got} below the floor {need}: "
                                          "the deciding monitor was not reached often enough")
-    return rep.finish(cov, getattr(mod, "ASSUMPTIONS", ()))
+    # a replay re-executes one recorded witness: it must not replace the evidence of the last full run
+    return rep.finish(cov, getattr(mod, "ASSUMPTIONS", ()), write_evidence=not replay_path)
 
 
 def main(argv=None):
